@@ -145,6 +145,14 @@ def trait_slices(tier):
     return sl
 
 
+def front_slices(tier):
+    big = tier != 'quick'
+    sl = []
+    for target in ('fn', 'mod', 'trait', 'impl'):
+        sl.append(dict(name=f'front/attr/{target}', mode='front', target=target, max_tokens=7 if big else 5, validate=8))
+    return sl
+
+
 OTHER_FOR = {
     'C01': ['mod/items'],
     'C02': ['mod/items', 'mod/visibility', 'impl/items', 'impl/attrs-async'],
@@ -159,7 +167,8 @@ OTHER_FOR = {
     'C12': ['mod/attrs-async-opts', 'impl/attrs-async', 'trait/delegation'],
     'C13': ['mod/visibility', 'mod/items', 'trait/delegation', 'trait/definition'],
     'C14': ['mod/attrs-async-opts', 'impl/items', 'trait/delegation'],
-    'C15': ['mod/items', 'impl/items', 'impl/attrs-async', 'mod/attrs-async-opts', 'trait/delegation', 'trait/definition', 'trait/opts'],
+    'C17': ['front/attr/'],
+    'C15': ['front/attr/', 'mod/items', 'impl/items', 'impl/attrs-async', 'mod/attrs-async-opts', 'trait/delegation', 'trait/definition', 'trait/opts'],
     'C16': ['impl/attrs-async'],
     'C18': ['mod/attrs-async-opts', 'impl/attrs-async', 'impl/items', 'trait/definition', 'trait/delegation'],
     'C19': ['mod/attrs-async-opts', 'impl/items', 'impl/attrs-async', 'trait/delegation', 'trait/opts', 'trait/generics'],
@@ -168,4 +177,4 @@ OTHER_FOR = {
 
 
 def all_slices(tier):
-    return fn_slices(tier) + mod_slices(tier) + impl_slices(tier) + trait_slices(tier)
+    return fn_slices(tier) + mod_slices(tier) + impl_slices(tier) + trait_slices(tier) + front_slices(tier)
